@@ -9,7 +9,8 @@ package turbotunnel
 // Environment: VERIF_IN (cases, one JSON object per line), VERIF_OUT
 // (results), VERIF_TARGET (inner|conn), VERIF_T (timeout in ticks),
 // VERIF_SEED, VERIF_TICKS_NS (comma-separated durations of one abstract clock
-// tick in nanoseconds; target inner runs every case once per scale - the
+// tick in nanoseconds; every case runs once per scale (target conn: only
+// scales >= 30 ms, because its records are stamped with the wall clock) - the
 // specification's clock is abstract, so the code must behave the same whether
 // a tick is a nanosecond or an hour).
 
@@ -161,8 +162,10 @@ func vqRun(c *vqCase, target string, T int, seed uint64, idx int, tick time.Dura
 				}
 			} else {
 				want := len(buf)
-				n, err := conn.WriteTo(buf, vqAddr(op.A))
-				if err != nil {
+				n, err, pan := vqWriteTo(conn, buf, vqAddr(op.A))
+				if pan != "" {
+					got = "panic:" + pan
+				} else if err != nil {
 					got = "err"
 				} else if n != want {
 					got = "short"
@@ -216,17 +219,30 @@ func vqRun(c *vqCase, target string, T int, seed uint64, idx int, tick time.Dura
 			} else {
 				// what the sweeper goroutine does, at the wall clock
 				conn.clients.lock.Lock()
-				conn.clients.inner.removeExpired(time.Now(), time.Hour)
+				conn.clients.inner.removeExpired(time.Now(), time.Duration(T)*tick)
 				conn.clients.lock.Unlock()
 			}
 		case "A":
 			now++
+			if target != "inner" {
+				// QueuePacketConn stamps records with the wall clock: one tick
+				// passes by making every existing record one tick older (same
+				// shift for all, so the age order is unchanged).
+				conn.clients.lock.Lock()
+				for _, r := range conn.clients.inner.byAge {
+					r.LastSeen = r.LastSeen.Add(-tick)
+				}
+				conn.clients.lock.Unlock()
+			}
 		case "C":
 			if err := conn.Close(); err != nil {
 				got = "err"
 			}
 		default:
 			return "harness/unknown-op", op.Op
+		}
+		if strings.HasPrefix(got, "panic:") {
+			return fmt.Sprintf("queue/%s/%s", target, got), fmt.Sprintf("step %d %s(%d) panicked; expected (%s pkt=%d)", i+1, op.Op, op.A, op.Res, op.Pkt)
 		}
 		if got != op.Res || gotPkt != op.Pkt || gotFrom != op.From {
 			return fmt.Sprintf("queue/%s/%s:expected-%s-got-%s", target, op.Op, vqClass(op.Res, op.Pkt, op.Pkt, op.From, op.From), vqClass(got, gotPkt, op.Pkt, gotFrom, op.From)),
@@ -245,6 +261,27 @@ func vqRun(c *vqCase, target string, T int, seed uint64, idx int, tick time.Dura
 		}
 	}
 	return "", ""
+}
+
+// vqWriteTo calls the real WriteTo; a panic is returned as its message class.
+func vqWriteTo(conn *QueuePacketConn, buf []byte, a net.Addr) (n int, err error, pan string) {
+	defer func() {
+		if v := recover(); v != nil {
+			pan = vqPanicClass(v)
+		}
+	}()
+	n, err = conn.WriteTo(buf, a)
+	return
+}
+
+func vqPanicClass(v interface{}) string {
+	msg := fmt.Sprint(v)
+	for _, known := range []string{"send on closed channel", "close of closed channel", "nil pointer dereference", "index out of range", "inconsistent clientMap", "duplicate address in clientMap"} {
+		if strings.Contains(msg, known) {
+			return strings.ReplaceAll(known, " ", "-")
+		}
+	}
+	return "other"
 }
 
 func vqClass(res string, pkt, wantPkt, from, wantFrom int) string {
@@ -292,8 +329,21 @@ func TestVerifQueue(t *testing.T) {
 			ticks = append(ticks, time.Duration(ns))
 		}
 	}
-	if len(ticks) == 0 || target != "inner" {
+	if len(ticks) == 0 {
 		ticks = []time.Duration{time.Second}
+	}
+	if target != "inner" {
+		// the wall clock keeps running during a case (microseconds): only scales far above that
+		var coarse []time.Duration
+		for _, t := range ticks {
+			if t >= 30*time.Millisecond {
+				coarse = append(coarse, t)
+			}
+		}
+		if len(coarse) == 0 {
+			coarse = []time.Duration{time.Second}
+		}
+		ticks = coarse
 	}
 	raw, err := vqReadCases(in)
 	if err != nil {
@@ -344,7 +394,17 @@ func TestVerifQueue(t *testing.T) {
 					}()
 					for _, tick := range ticks {
 						atomic.AddInt64(&runs, 1)
-						if sig, detail := vqRun(&c, target, T, seed, i, tick); sig != "" {
+						sig, detail := "", ""
+						for attempt := 0; attempt < 4; attempt++ {
+							t0 := time.Now()
+							sig, detail = vqRun(&c, target, T, seed, i, tick)
+							// a case runs in microseconds; if this run was stalled for a
+							// noticeable part of a tick the wall-clock stamps are off: run it again
+							if sig == "" || target == "inner" || time.Since(t0) < tick/16 {
+								break
+							}
+						}
+						if sig != "" {
 							put(vqResult{Idx: i, Sig: sig, Detail: fmt.Sprintf("[one tick = %v, timeout = %v] %s", tick, time.Duration(T)*tick, detail), Case: json.RawMessage(raw[i])})
 							break
 						}
@@ -355,6 +415,222 @@ func TestVerifQueue(t *testing.T) {
 	}
 	wg.Wait()
 	put(map[string]interface{}{"summary": map[string]interface{}{"cases": len(raw), "steps": steps, "nontrivial": nontrivial, "runs": runs, "scales": len(ticks)}})
+	w.Flush()
+	of.Close()
+}
+
+// ---------------------------------------------------------------------------
+// Operation sequences with Advance/Sweep on a real QueuePacketConn with its
+// real sweeper goroutine, in real time (short timeout).  Advance = sleep one
+// tick; at a model Sweep the harness waits for the real sweeper: records the
+// model discards must disappear (deadline 1.5 timeouts + allowance), records
+// the model keeps are watched until just before their own timeout.  Verdicts
+// never rest on scheduling luck: "discarded early" is judged by the measured
+// time since the START of the client's last WriteTo/OutgoingQueue (< timeout),
+// a mismatch that could be explained by the wall clock having run past a
+// timeout the model has not reached is reported as skipped, not as a violation.
+//
+// Environment: VERIF_IN, VERIF_OUT, VERIF_T (ticks), VERIF_RT_TICK_MS, VERIF_SEED.
+
+func vqRunRT(c *vqCase, T int, tau time.Duration, seed uint64, idx int, phase time.Duration, allowance time.Duration) (sig, detail string, skipped bool) {
+	timeout := time.Duration(T) * tau
+	margin := timeout / 10
+	conn := NewQueuePacketConn(vqAddr(200), timeout)
+	inner := &conn.clients.inner
+	isPresent := func(a int) bool {
+		conn.clients.lock.Lock()
+		_, ok := inner.byAddr[vqAddr(a)]
+		conn.clients.lock.Unlock()
+		return ok
+	}
+	time.Sleep(phase)
+	touch := map[int]time.Time{}
+	held := map[int]<-chan []byte{}
+	var prev []int
+	for i, op := range c.Ops {
+		where := fmt.Sprintf("[real time, timeout %v, sweeper every %v] step %d %s(%d)", timeout, timeout/2, i+1, op.Op, op.A)
+		// The model and the wall clock must agree about who is within its
+		// timeout: if a record the model still holds (and does not discard in
+		// this very Sweep) has really been idle for almost a timeout, the real
+		// sweeper may legitimately be ahead of the model - give the case up.
+		if op.Op != "A" {
+			for _, a := range prev {
+				discarded := op.Op == "S"
+				for _, k := range op.Present {
+					if k == a {
+						discarded = false
+					}
+				}
+				if !discarded && time.Since(touch[a]) >= timeout-margin {
+					return "", "", true
+				}
+			}
+		}
+		opStart := time.Now()
+		stalled := func() bool { return time.Since(opStart) > margin }
+		switch op.Op {
+		case "W":
+			buf := vqPacket(seed, op.Pkt)
+			want := len(buf)
+			t0 := time.Now()
+			n, err, pan := vqWriteTo(conn, buf, vqAddr(op.A))
+			vqScribble(buf)
+			touch[op.A] = t0
+			switch {
+			case pan != "":
+				return "queue/conn/panic:" + pan, where + " panicked; expected ok", false
+			case err != nil || n != want:
+				return "queue/conn/W:expected-ok-got-err", where, false
+			case !isPresent(op.A):
+				if stalled() {
+					return "", "", true
+				}
+				return "queue/conn/W:record-missing", where + ": no record for the address just written to", false
+			}
+		case "O":
+			t0 := time.Now()
+			held[op.A] = conn.OutgoingQueue(vqAddr(op.A))
+			touch[op.A] = t0
+			if !isPresent(op.A) {
+				if stalled() {
+					return "", "", true
+				}
+				return "queue/conn/O:record-missing", where, false
+			}
+		case "D":
+			got, gotPkt := "", 0
+			select {
+			case p, ok := <-held[op.A]:
+				if !ok {
+					got = "closed"
+				} else {
+					got, gotPkt = "pkt", vqID(seed, p)
+				}
+			default:
+				got = "empty"
+			}
+			if got != op.Res || gotPkt != op.Pkt {
+				if stalled() || time.Since(touch[op.A]) >= timeout-margin {
+					return "", "", true // the real clock may have passed this client's timeout
+				}
+				return fmt.Sprintf("queue/conn/D:expected-%s-got-%s", vqClass(op.Res, op.Pkt, op.Pkt, 0, 0), vqClass(got, gotPkt, op.Pkt, 0, 0)),
+					fmt.Sprintf("%s: expected (%s pkt=%d), real code gave (%s pkt=%d), %v after the client's last touch", where, op.Res, op.Pkt, got, gotPkt, time.Since(touch[op.A])), false
+			}
+		case "A":
+			time.Sleep(tau)
+		case "S":
+			keep := map[int]bool{}
+			for _, a := range op.Present {
+				keep[a] = true
+			}
+			// records the model discards here: the real sweeper must discard them, not before their timeout
+			for _, a := range prev {
+				if keep[a] {
+					continue
+				}
+				deadline := touch[a].Add(timeout + timeout/2 + allowance)
+				for isPresent(a) {
+					if time.Now().After(deadline) {
+						return "queue/conn/S:record-survives", fmt.Sprintf("%s: record %d still present %v after its last touch", where, a, time.Since(touch[a])), false
+					}
+					time.Sleep(time.Millisecond)
+				}
+			}
+			// records the model keeps: watch them while they are certainly within their timeout
+			until := time.Now().Add(timeout/2 + margin)
+			for a := range keep {
+				if lim := touch[a].Add(timeout - margin*5/2); lim.Before(until) { // stop well before the taint threshold of the next step
+					until = lim
+				}
+			}
+			for {
+				for a := range keep {
+					if !isPresent(a) {
+						if idle := time.Since(touch[a]); idle < timeout {
+							return "queue/conn/S:record-missing", fmt.Sprintf("%s: record %d discarded %v after the start of its last WriteTo/OutgoingQueue (timeout %v)", where, a, idle, timeout), false
+						}
+						return "", "", true
+					}
+				}
+				if !time.Now().Before(until) {
+					break
+				}
+				time.Sleep(2 * time.Millisecond)
+			}
+		default:
+			return "harness/rt-unsupported-op", op.Op, false
+		}
+		prev = op.Present
+	}
+	return "", "", false
+}
+
+func TestVerifQueueRT(t *testing.T) {
+	in, outp := os.Getenv("VERIF_IN"), os.Getenv("VERIF_OUT")
+	if in == "" || outp == "" {
+		t.Skip("VERIF_IN/VERIF_OUT not set")
+	}
+	T, _ := strconv.Atoi(os.Getenv("VERIF_T"))
+	ms, _ := strconv.Atoi(os.Getenv("VERIF_RT_TICK_MS"))
+	if ms <= 0 {
+		ms = 50
+	}
+	allowMul, _ := strconv.Atoi(os.Getenv("VERIF_RT_ALLOW"))
+	if allowMul <= 0 {
+		allowMul = 2
+	}
+	tau := time.Duration(ms) * time.Millisecond
+	seed, _ := strconv.ParseUint(os.Getenv("VERIF_SEED"), 10, 64)
+	raw, err := vqReadCases(in)
+	if err != nil {
+		t.Fatal(err)
+	}
+	of, err := os.Create(outp)
+	if err != nil {
+		t.Fatal(err)
+	}
+	w := bufio.NewWriter(of)
+	var mu sync.Mutex
+	put := func(v interface{}) {
+		b, _ := json.Marshal(v)
+		mu.Lock()
+		w.Write(b)
+		w.WriteByte('\n')
+		mu.Unlock()
+	}
+	var runs, skipped int64
+	var wg sync.WaitGroup
+	sem := make(chan struct{}, 256) // concurrent runs: sleeping goroutines are free, thousands of 1 ms pollers are not
+	for i := range raw {
+		var c vqCase
+		if err := json.Unmarshal(raw[i], &c); err != nil {
+			put(vqResult{Idx: i, Sig: "harness/bad-case", Detail: err.Error()})
+			continue
+		}
+		for ph := 0; ph < 3; ph++ {
+			wg.Add(1)
+			sem <- struct{}{}
+			go func(i, ph int, c vqCase) {
+				defer wg.Done()
+				defer func() { <-sem }()
+				defer func() {
+					if v := recover(); v != nil {
+						put(vqResult{Idx: i, Sig: "queue/conn/panic:" + vqPanicClass(v), Detail: fmt.Sprintf("%v\n%s", v, debug.Stack()), Case: json.RawMessage(raw[i])})
+					}
+				}()
+				atomic.AddInt64(&runs, 1)
+				sig, detail, skip := vqRunRT(&c, T, tau, seed, i, time.Duration(ph)*tau/3, time.Duration(allowMul*T)*tau)
+				if skip {
+					atomic.AddInt64(&skipped, 1)
+				}
+				if sig != "" {
+					put(vqResult{Idx: i, Sig: sig, Detail: detail, Case: json.RawMessage(raw[i])})
+				}
+			}(i, ph, c)
+		}
+	}
+	wg.Wait()
+	put(map[string]interface{}{"summary": map[string]interface{}{"cases": len(raw), "runs": runs, "skipped": skipped, "nontrivial": len(raw), "steps": 0}})
 	w.Flush()
 	of.Close()
 }
